@@ -49,6 +49,33 @@ state `ρ` with cutoff `D`: the full diagonal summed over the photon numbers of 
 def bornProb [Zero K] [Add K] (D n : Nat) (ρ : Tens K) (sel : List (Nat × Nat)) : K :=
   traceOver D ((List.range n).filter fun i => !(sel.map (·.1)).contains i) ρ (assign sel)
 
+/-! ### Gaussian back end: what the photon-counting / threshold samplers receive -/
+
+section discrete
+open SFV.Gauss
+
+/-- `GaussianBackend.measure_fock` / `measure_threshold`: `x_idxs = array(modes)`, `p_idxs = x_idxs + len(mu)`,
+`modes_idxs = concatenate([x_idxs, p_idxs])`.  `nlen = len(self.circuit.mean)` is the size of the simulator arrays:
+a deleted mode keeps its row, so `nlen` is NOT the number of live modes. -/
+def discreteIdxs (nlen : Nat) (modes : List Nat) : List Nat := modes ++ modes.map (· + nlen)
+
+variable [Zero K] [One K] [Add K] [Sub K] [Neg K] [Mul K]
+
+/-- `scovmatxp()`: xx, xp / px, pp blocks side by side (array size `2·nlen`) -/
+def scovxp (st : GS K) : Mat K := fun r c =>
+  if r < st.n then (if c < st.n then Vxx st r c else Vxp st r (c - st.n))
+  else (if c < st.n then Vxp st c (r - st.n) else Vpp st (r - st.n) (c - st.n))
+
+/-- `smeanxp()` -/
+def smeanxp (st : GS K) : Vec K := fun r => if r < st.n then meanX st r else meanP st (r - st.n)
+
+/-- `(reduced_mean, reduced_cov)` handed to `hafnian_sample_state` / `torontonian_sample_state` -/
+def gaussDiscreteArgs (st : GS K) (modes : List Nat) : PS K :=
+  let ix := discreteIdxs st.n modes
+  { cov := fun a b => scovxp st (ix.getD a 0) (ix.getD b 0), mean := fun a => smeanxp st (ix.getD a 0) }
+
+end discrete
+
 /-! ### bosonic rejection sampler (real weights, real means) -/
 
 /-- one Gaussian peak evaluated at the proposed point: weight, prefactor `1/sqrt(det(2π Σ))`, `exp(-½ q)` -/
